@@ -71,7 +71,7 @@ CHECKS = {
     "C09": {
         "trace_module": "Trace_FilterSync",
         "mc": [MC_FILTERSYNC],
-        "drivers": [fsync("scripts", 30, 250, 4, 10), fsync("sync", 10, 60, 1, 4)],
+        "drivers": [fsync("scripts", 50, 300, 6, 10), fsync("sync", 10, 60, 1, 4)],
         "assumptions": FS_ASSUMPTIONS,
     },
     "C06": {
